@@ -8,6 +8,9 @@ HARNESSES = [
     ("visit", ["visit.cxx"], "plain"),
     ("seqs", ["seqs.cxx"], "plain"),
     ("printer", ["printer.cxx"], "plain"),
+    ("ledger", ["ledger.cxx"], "plain"),
+    ("threads", ["threads.cxx"], "plain"),
+    ("threads", ["threads.cxx"], "tsan"),
     ("seqs", ["seqs.cxx"], "asan"),
     ("scopes", ["scopes.cxx"], "plain"),
     ("regions", ["regions.cxx"], "plain"),
